@@ -630,7 +630,28 @@ def directed_histories():
                 p.Remainder(p.Product((p.Sum((y, 1)), 100)), p.Sum((ub, 4))),
                 p.Product((ub, ub)), p.FloorDiv(p.Product((z, 50)), p.Sum((ub, 1))),
                 p.Sum((CSE(p.Product((2, ub)), "h"), CSE(p.Product((2, ub)), "h")))]
+    # subtracted products of three and more factors with a grouped factor at every position
+    for R in (p.Remainder, p.FloorDiv):
+        rem = R(p.Sum((y, 9)), p.Sum((z, 2)))
+        for fs in ((x, rem), (rem, x), (x, y, rem), (x, rem, y), (rem, x, y), (p.Sum((x, 1)), rem, rem),
+                   (x, p.Sum((y, z)), rem), (x, p.Product((y, rem)))):
+            out.append(p.Sum((z, p.Product((-1, *fs)))))
+            out.append(p.Sum((p.Product((-1, *fs)), 50, p.Product((-1, z, y)))))
+            out.append(p.Product((2, p.Sum((z, p.Product((-1, *fs)))))))
+    # sharing: ONE composite object at two places whose contexts differ
+    from ..gen import scale
+    for s_ in (p.Sum((x, y)), p.Sum((x, -2)), p.Product((-1, x)), p.Remainder(p.Sum((x, 7)), 5),
+               p.FloorDiv(p.Sum((y, 9)), 4), p.If(p.Comparison(x, "<", y), x, y), p.Product((x, y)),
+               p.Sum((x, p.Product((-1, y)))), p.Power(x, 2), p.LeftShift(x, 1), p.BitwiseOr((x, 4))):
+        out += scale.shared_contexts(s_, 3, z)
+        out += [p.Sum((CSE(s_, "sh"), p.Product((s_, z)))), p.Sum((p.Product((s_, z)), CSE(s_, "sh"))),
+                p.Sum((p.Power(s_, 3), p.Product((s_, z)))), p.Sum((p.Product((s_, z)), p.Power(s_, 3)))]
     hists = [([e], [("map", 0, 0)]) for e in out]
+    # ... and at two places of two expressions that go through the one mapper
+    for s_ in (p.Sum((x, y)), p.Remainder(p.Sum((x, 7)), 5), p.Product((-1, x)), p.Sum((x, p.Product((-1, y))))):
+        es = [p.If(p.Comparison(z, ">", 0), s_, 0), p.Product((s_, z)), p.Sum((s_, 1)), p.Power(s_, 2)]
+        hists.append((es, [("map", 0, 0), ("map", 1, 0), ("map", 2, 0), ("map", 3, 0)]))
+        hists.append((es, [("map", 3, 0), ("map", 2, 0), ("map", 1, 0), ("map", 0, 0)]))
     # ONE subexpression wrapped under different scopes (and prefixes): still one assignment
     for sc in ([p.cse_scope.EVALUATION, p.cse_scope.EXPRESSION, p.cse_scope.GLOBAL],
                [p.cse_scope.GLOBAL, p.cse_scope.EVALUATION], [p.cse_scope.EXPRESSION] * 2):
@@ -726,6 +747,6 @@ def workload(ctx):
     ctx.floor("compiler:clang-san", 2000)
     ctx.floor("cse_assignments", 100)
     ctx.floor("histories", 300)
-    ctx.floor("directed_histories", 55)
+    ctx.floor("directed_histories", 200)
     ctx.floor("directed_float_histories", 60)
     ctx.floor("failed_renders_in_history", 30)
